@@ -23,6 +23,13 @@ impl Sl {
     #[verifier::external_body]
     pub fn empty() -> (s: Sl) ensures s.len == 0 { unimplemented!() }
 }
+// NonNull::dangling().as_ref() / as_mut(): a well-aligned address that is NOT derived from any reference in scope (nothing is known about it)
+#[verifier::external_body]
+pub fn dangling_ref() -> (s: Sl) { unimplemented!() }
+// mem::size_of::<T>(): some fixed size, possibly zero
+pub uninterp spec fn size_of_t() -> usize;
+#[verifier::external_body]
+pub fn size_of_elem() -> (r: usize) ensures r == size_of_t() { unimplemented!() }
 impl Ptr {
     // `p as *const X`: same address and provenance, the pointee now spans `stride` elements
     #[verifier::external_body]
